@@ -99,16 +99,22 @@ PLAN = {
     },
     "C05": {
         "level": "fault_enumeration",
-        "engines": lambda tier: [_e("release", "faultmc", "c05"), dict(_e("release", "faultmc", "c05giant"), side=True), dict(_e("release", "faultmc", "c05sweep"), side=True)],
+        "engines": lambda tier: [_e("release", "faultmc", "c05"), dict(_e("release", "faultmc", "c05giant"), side=True), dict(_e("release", "faultmc", "c05sweep"), side=True)] + [
+            # the same two walks with the environment refusing file mappings (shim/mmapfail.c)
+            dict(_e("release", "faultmc", sub, "--mmap-refusals", also_build=[("shim", "mmapfail")],
+                    env={"LD_PRELOAD": "{VERIF}/shim/mmapfail.so", "MMAPFAIL_SWITCH": "{SCRATCH}/mmapfail-" + sub + ".switch", "MMAPFAIL_LOG": "{SCRATCH}/mmapfail-" + sub + ".log"}), side=True)
+            for sub in ("c05giant", "c05sweep")
+        ],
         "assumptions": [
             "the structural dump is what the public reader API returns (pack infos, index headers, every entry's variant and values, content sizes, content hashes)",
             "a node absent from the altered dump is accepted only because counts/lengths are always dumped next to it",
             "one container with a single checked block of 19.2 MB (above every size threshold of the block reader) gets 20 alterations only; all other containers are swept exhaustively",
+            "whether the kernel grants a file mapping is an environment answer decided by an LD_PRELOAD shim (shim/mmapfail.c; every file-backed mmap of the process, counted and logged): for the 19.2 MB block every single refusal and all refused, for the bare-pack sweep (N = 1000..1100, thorough ..4400) all refused; other environment failures of reads (EIO, short reads of the reader) are not modelled",
         ],
     },
     "C06": {
         "level": "fault_enumeration",
-        "engines": lambda tier: [_e("release", "faultmc", "c06"), _e("dev", "faultmc", "c06"), dict(_e("release", "faultmc", "c06sweep"), side=True), dict(_e("dev", "faultmc", "c06sweep"), side=True)],
+        "engines": lambda tier: [_e("release", "faultmc", "c06"), dict(_e("dev", "faultmc", "c06"), side=True), dict(_e("release", "faultmc", "c06sweep"), side=True), dict(_e("dev", "faultmc", "c06sweep"), side=True)],
         "assumptions": [
             "hang detection is wall-clock based: 10 s without an answer (typical case: a few ms), confirmed alone with 30 s",
             "each case runs in a worker process; process death is attributed to the case in flight",
